@@ -29,17 +29,18 @@ import (
 )
 
 type p2pNode struct {
-	name string
-	dir  string
-	port int
-	key  []byte
-	x    *Nd
+	noPubSub bool
+	name     string
+	dir      string
+	port     int
+	key      []byte
+	x        *Nd
 }
 
 func (p *p2pNode) open(ctx context.Context) error {
 	opts := []node.Option{node.WithDisableAPI(true), node.WithStorePath(p.dir), node.WithStoreType(node.BadgerStore), node.WithBadgerInMemory(false),
 		netConfig.WithListenAddresses(fmt.Sprintf("/ip4/127.0.0.1/tcp/%d", p.port)), netConfig.WithPrivateKey(p.key),
-		netConfig.WithEnablePubSub(true), netConfig.WithRetryInterval([]time.Duration{300 * time.Millisecond})}
+		netConfig.WithEnablePubSub(!p.noPubSub), netConfig.WithRetryInterval([]time.Duration{300 * time.Millisecond})}
 	n, err := node.New(ctx, opts...)
 	if err != nil {
 		return err
@@ -72,7 +73,7 @@ func engRepl(e *Env) {
 	ctx := context.Background()
 	r := NewRng(e.Seed)
 	e.Res.Rule = "event sequences of 6-12 events over {write (create or update of 1-3 documents: register, counter), B down, B up, A restart, add-field patch on A only / on both, P2P collection add / remove}; at least one outage with a write inside; distinct = distinct event sequence; non-trivial = two separate outages, or an A restart while documents are pending, or a patch before a write made during an outage"
-	nScen := 4
+	nScen := 5
 	if e.thorough() {
 		nScen = 40
 	}
@@ -88,6 +89,10 @@ func engRepl(e *Env) {
 			return &p2pNode{name: name, dir: dir, port: port, key: key}
 		}
 		a, b := mk("A", basePort+2*si), mk("B", basePort+2*si+1)
+		// the fifth scripted scenario runs without the pubsub network: a replicator must work all the same
+		if si == 4 {
+			a.noPubSub, b.noPubSub = true, true
+		}
 		var desc, coq []string
 		replay := map[string]any{"events": &desc}
 		bad := false
@@ -189,7 +194,7 @@ type Other { title: String }`
 		// the first scenario of every run is scripted: two separate outages with a full recovery in between
 		// the second: P2P collection added, schema patched, collection removed, A restarted
 		// the third: A restarted while the replicator is inactive, then a write to a new document
-		scripts := [][]int{{0, 0, 4, 5, 0, 4, 5}, {8, 0, 7, 9, 6, 0}, {0, 4, 6, 0, 0, 5}, {7, 0, 0, 0}}
+		scripts := [][]int{{0, 0, 4, 5, 0, 4, 5}, {8, 0, 7, 9, 6, 0}, {0, 4, 6, 0, 0, 5}, {7, 0, 0, 0}, {0, 0, 4, 5, 0}}
 		if si < len(scripts) {
 			script = scripts[si]
 			nEv = len(script)
@@ -270,7 +275,7 @@ type Other { title: String }`
 				if !bUp {
 					nontrivial = true
 				}
-			case c == 8:
+			case c == 8 && !a.noPubSub:
 				col := Pick(r, []string{"User", "Other"})
 				if script != nil {
 					col = "User"
@@ -370,6 +375,7 @@ type Other { title: String }`
 			e.distinct(strings.Join(desc, "|"))
 		}
 		e.count(fmt.Sprintf("outages_%d", outages))
+		e.count(fmt.Sprintf("pubsub_%v", !a.noPubSub))
 		if si == 0 {
 			e.sample(map[string]any{"events": desc})
 		}
